@@ -579,7 +579,7 @@ fn call_export(name: &str, vals: &[Val]) -> Option<Val> {
         c.lower_flat(v, &p.ty, &mut flat);
     }
     let key = cabi_key(name);
-    with(|h| cmhost::tr!(h, "host calls export {name}({})", vals.iter().map(short).collect::<Vec<_>>().join(", ")));
+    with(|h| cmhost::tr!(h, "host calls export {name}({})", vals.iter().map(short_masked).collect::<Vec<_>>().join(", ")));
     let r = ledger::guest(|| unsafe { exports::call_export(&key, &flat) });
     let out = f.result.as_ref().map(|t| {
         let mut c = Codec::new(resolve);
